@@ -330,6 +330,9 @@ func runC02(c *Ctx) {
 			if gi == 0 && r.Chance(25) {
 				p.Job = 0 // a packet queued without a Job number (Session.Write of a user packet)
 			}
+			if gi == 1 && r.Chance(20) {
+				p.Job = 1 // the smallest Job number there is
+			}
 			origs = append(origs, freeze(p))
 			if err := snd.VerifC02Write(true, p); err != nil {
 				return
@@ -368,6 +371,10 @@ func runC02(c *Ctx) {
 		if r.Chance(15) {
 			lose = -1
 		}
+		mark := -1
+		if r.Chance(40) {
+			mark = r.Intn(total)
+		}
 		hurt := make([]bool, ng)
 		delivered := make([]int, ng)
 		var deliveredPk []*com.Packet
@@ -399,6 +406,12 @@ func runC02(c *Ctx) {
 				continue
 			}
 			w2, _ := wireCopy(n)
+			if tx == mark {
+				// the per-hop marks the connection code puts on whatever single packet travels at that
+				// moment (Session.session: FlagChannel, channelWrite: FlagChannelEnd)
+				w2.Flags |= []com.Flag{com.FlagChannel, com.FlagChannelEnd}[r.Intn(2)]
+				c.Count("senddrop:hop-mark")
+			}
 			before := len(msgr.Evs)
 			if err := rcv.VerifC02Receive(w2); err != nil {
 				c.Fail("reassemble", "senddrop:receive-error", err.Error(), in)
@@ -406,7 +419,7 @@ func runC02(c *Ctx) {
 			}
 			for _, v := range msgr.Evs[before:] {
 				for gi := range origs {
-					if v.Job == origs[gi].p.Job || (origs[gi].p.Job == 0 && v.ID == origs[gi].p.ID && v.Job != 101 && v.Job != 102 && len(v.Payload()) == len(origs[gi].pay)) {
+					if v.Job == origs[gi].p.Job || (origs[gi].p.Job == 0 && v.ID == origs[gi].p.ID && v.Job != 101 && v.Job != 102 && v.Job != 1 && len(v.Payload()) == len(origs[gi].pay)) {
 						delivered[gi]++
 						deliveredPk = append(deliveredPk, v)
 						if d := eqFrozen(origs[gi], v); d != "" && d != "flags" && d != "tags" && d != "tagcount" && !(d == "job" && origs[gi].p.Job == 0 && v.Job != 0) {
